@@ -332,3 +332,56 @@ func findMethod(prog *ssa.Program, T types.Type, name string) *ssa.Function {
 	}
 	return nil
 }
+
+// ctorOf returns the package-level function of the type's package whose single (or first) result is *T.
+func (w *World) ctorOf(T *types.Named) *ssa.Function {
+	if T == nil || T.Obj().Pkg() == nil {
+		return nil
+	}
+	sp := w.SSAPkgs[T.Obj().Pkg().Path()]
+	if sp == nil {
+		return nil
+	}
+	var names []string
+	for n := range sp.Members {
+		names = append(names, n)
+	}
+	sort.Strings(names)
+	for _, n := range names {
+		if fn, ok := sp.Members[n].(*ssa.Function); ok && fn.Signature.Results().Len() >= 1 && isPtrTo(fn.Signature.Results().At(0).Type(), T) {
+			return fn
+		}
+	}
+	return nil
+}
+
+// funcsInPkg returns the package-level functions and methods (with bodies) of a repo package, sorted.
+func (w *World) funcsInPkg(rel string) []*ssa.Function {
+	sp := w.Pkg(rel)
+	var out []*ssa.Function
+	for _, fn := range w.RepoFuncs() {
+		if fn.Pkg == sp {
+			out = append(out, fn)
+		}
+	}
+	return out
+}
+
+// callersOf returns the repo functions containing a static call of fn.
+func (w *World) callersOf(fn *ssa.Function) []*ssa.Function {
+	var out []*ssa.Function
+	for _, f := range w.RepoFuncs() {
+		found := false
+		for _, b := range f.Blocks {
+			for _, in := range b.Instrs {
+				if ci, ok := in.(ssa.CallInstruction); ok && ci.Common().StaticCallee() == fn {
+					found = true
+				}
+			}
+		}
+		if found {
+			out = append(out, f)
+		}
+	}
+	return out
+}
